@@ -560,6 +560,52 @@ pub fn check_two_entry_points(h: &History, obs: &mut Obs) -> CheckResult {
     Ok(())
 }
 
+/// Tier D over the real Unix control socket (`control_socket::spawn` on a small runtime, no sender needed):
+/// framing, one answer per request, nothing for notifications (told apart with a sentinel request, no timer),
+/// same answers and same configuration as the stdin dispatcher.
+pub struct SocketEnv {
+    _rt: tokio::runtime::Runtime,
+    path: std::path::PathBuf,
+    live: DynamicConfig,
+}
+
+impl SocketEnv {
+    pub fn new(worker: usize) -> Option<SocketEnv> {
+        let rt = tokio::runtime::Builder::new_multi_thread().worker_threads(1).enable_all().build().ok()?;
+        let dir = std::path::Path::new(crate::rt::VERIF_DIR).join("harness").join("target");
+        let _ = std::fs::create_dir_all(&dir);
+        let path = dir.join(format!("c18-{}-{worker}.sock", std::process::id()));
+        let live = DynamicConfig::new();
+        let (p, c) = (path.to_str()?.to_string(), live.clone());
+        rt.spawn(async move {
+            let _ = srtla_send::control_socket::spawn(p, c, SharedStats::new(), CriticalWindow::new(), SubscriptionHub::new()).await;
+        });
+        for _ in 0..500 {
+            if std::os::unix::net::UnixStream::connect(&path).is_ok() {
+                return Some(SocketEnv { _rt: rt, path, live });
+            }
+            std::thread::sleep(std::time::Duration::from_millis(10));
+        }
+        None
+    }
+}
+
+impl Drop for SocketEnv {
+    fn drop(&mut self) {
+        let _ = std::fs::remove_file(&self.path);
+    }
+}
+
+pub fn check_socket(env: &Option<SocketEnv>, h: &History, obs: &mut Obs) -> CheckResult {
+    let Some(env) = env else { return Ok(()) };
+    let lines: Vec<String> = h.lines.iter().filter(|l| !l.contains(['\n', '\r'])).cloned().collect();
+    obs.nontrivial = lines.len() >= 2;
+    match crate::props::e2e::phase_control_at(&env.path, &env.live, None, &lines) {
+        Err(v) if v.sig == "e2e-harness" => Ok(()),
+        r => r,
+    }
+}
+
 fn history_strategy(max: usize) -> impl Strategy<Value = History> {
     vec(any_line(), 1..max).prop_map(|lines| History { lines })
 }
@@ -625,7 +671,11 @@ pub fn run(ctx: &Ctx) -> &'static str {
     for (file, body) in ctx.replay_files() {
         let done = ctx.replay_case::<History, _>("histories", &file, &body, check_history)
             || ctx.replay_case::<History, _>("lines", &file, &body, check_history)
-            || ctx.replay_case::<History, _>("two-entry-points", &file, &body, check_two_entry_points);
+            || ctx.replay_case::<History, _>("two-entry-points", &file, &body, check_two_entry_points)
+            || {
+                let env = SocketEnv::new(99);
+                ctx.replay_case::<History, _>("socket", &file, &body, |c, o| check_socket(&env, c, o))
+            };
         if !done {
             eprintln!("replay {}: unknown part", file.display());
         }
@@ -653,6 +703,16 @@ pub fn run(ctx: &Ctx) -> &'static str {
         ctx.tier.pick(12_000, 120_000),
         || history_strategy(30),
         |_| check_two_entry_points,
+    );
+    ctx.explore(
+        "socket",
+        "line histories over the real Unix control socket (control_socket::spawn on its own runtime): every line is followed by a sentinel request so that 'no answer' is told from 'slow answer' without a timer; answers and the resulting configuration must equal those of the stdin dispatcher on a twin configuration; exactly one line per request",
+        ctx.tier.pick(1_500, 20_000),
+        || history_strategy(12),
+        |w| {
+            let env = SocketEnv::new(w);
+            move |c: &History, o: &mut Obs| check_socket(&env, c, o)
+        },
     );
     if ctx.tier == Tier::Thorough {
         concurrent_stress(ctx);
